@@ -81,7 +81,9 @@ class Run:
     def finish(self):
         for rid in self.order:
             r = self.rules[rid]
-            if r['matched'] < r['floor'] and r['violations'] == 0:
+            # a rule that lost its instances because another rule's violation changed the shape it builds on (e.g. the mode predicate is broken,
+            # so no region is 'Sensitive' any more) must not mask that violation: the floor is enforced only on runs without any violation
+            if r['matched'] < r['floor'] and r['violations'] == 0 and not self.violations:
                 raise AnalysisBroken('%s: matched %d instances, floor is %d (rule would pass vacuously): %s'
                                      % (rid, r['matched'], r['floor'], r['text']))
         known = [k for k in load_known() if k.get('property') == self.prop and not k.get('fixed')]
